@@ -811,13 +811,18 @@ def load_corpus():
 # ---------------------------------------------------------------------
 # shrinking
 # ---------------------------------------------------------------------
-def fails(mod, c):
+def fails(mod, c, strong_only=False):
+    """(violations, events) if the property fails on this case.  strong_only: a definition that the
+    constructor should have refused does not count (the shrinker must not turn a violated clause
+    into that)."""
     try:
         normalize_spec(c["spec"])
         ctor, ev, _ = run_impl(mod, c["spec"], c["ops"], 900000)
     except Exception:
         return None
     v = oracle(c["spec"], c["ops"], ev, ctor)
+    if v and strong_only and v[0]["clause"].startswith("constructor_accepts"):
+        return None
     return (v, ev) if v else None
 
 
@@ -831,6 +836,7 @@ def shrink(mod, c):
     r = fails(mod, c)
     if not r:
         return c, None
+    strong = not r[0][0]["clause"].startswith("constructor_accepts")
     # cut after the violating operation
     c["ops"] = c["ops"][:r[0][0]["op_index"] + 1]
     t = _copy(c)
@@ -838,10 +844,10 @@ def shrink(mod, c):
         for d in k["defs"]:
             if d["kind"] == "state":
                 d["params"] = list(ALL_PARAMS)
-    if fails(mod, t):
+    if fails(mod, t, strong):
         c = t
-    if not fails(mod, c):
-        return c, fails(mod, c)
+    if not fails(mod, c, strong):
+        return c, fails(mod, c, strong)
 
     def attempt(t):
         nonlocal c
@@ -849,7 +855,7 @@ def shrink(mod, c):
             normalize_spec(t["spec"])
         except Exception:
             return False
-        if fails(mod, t):
+        if fails(mod, t, strong):
             c = t
             return True
         return False
@@ -867,7 +873,7 @@ def shrink(mod, c):
         i = 0
         while i < len(c["ops"]):
             t = dict(c, ops=c["ops"][:i] + c["ops"][i + 1:])
-            if any(o["op"] == "enable" for o in t["ops"]) and fails(mod, t):
+            if any(o["op"] == "enable" for o in t["ops"]) and fails(mod, t, strong):
                 c = t
                 changed = True
             else:
@@ -877,7 +883,7 @@ def shrink(mod, c):
             if o["op"] == "iter" and o["rules"]:
                 keep = o["rules"]
                 o["rules"] = []
-                if fails(mod, c):
+                if fails(mod, c, strong):
                     changed = True
                 else:
                     o["rules"] = keep
@@ -938,7 +944,7 @@ def shrink(mod, c):
                     t["spec"]["classes"][ci]["defs"][di]["next"] = None
                     if attempt(t):
                         changed = True
-    return c, fails(mod, c)
+    return c, fails(mod, c, strong)
 
 
 def describe_classes(spec):
@@ -1150,10 +1156,14 @@ def run(ctx):
     def search():
         found = []
         first = bad_total + oracle_bad
-        order = first + [i for i in range(len(cases)) if i not in set(first)]
+        fs = set(first)
+        order = first + [i for i in range(len(cases)) if i not in fs]
+        weak = None      # a definition the constructor should have refused: reported only if nothing else fails
         for i in order:
             v = oracle(cases[i]["spec"], cases[i]["ops"], results[i], ctors[i])
-            if v:
+            if v and v[0]["clause"].startswith("constructor_accepts"):
+                weak = cases[i] if weak is None else weak
+            elif v:
                 found.append(cases[i])
                 break
         if not found:
@@ -1166,6 +1176,8 @@ def run(ctx):
                 if fails(mod, c):
                     found.append(c)
                     break
+        if not found and weak is not None:
+            found.append(weak)
         out = []
         for c in found:
             small, r2 = shrink(mod, c)
